@@ -89,3 +89,23 @@ Definition build_fn (i : binput) : option changes :=
   let '(revert, l1, l2) := i in build_state revert l1 l2.
 Definition bcase := (N * binput * option changes)%type.
 Definition check_build (cs : list bcase) := fmismatches build_fn (option_eqb changes_eqb) cs.
+
+(** * host/contracts/update.go: Manager.UpdateChainState — the order in which one batch of
+    consensus updates reaches the store: every reverted block first (RevertContracts with the
+    index of the reverted block), then per applied block ApplyContracts followed by
+    RejectContracts(height - rejectBuffer) when height >= rejectBuffer. *)
+Inductive call := CRevert (h : N) | CApply (h : N) | CReject (hm : N).
+
+Definition manager_calls (buffer : N) (revs apps : list N) : list call :=
+  map CRevert revs ++
+  flat_map (fun h => CApply h :: (if buffer <=? h then [CReject (h - buffer)] else [])) apps.
+
+Definition call_eqb (a b : call) : bool :=
+  match a, b with
+  | CRevert x, CRevert y | CApply x, CApply y | CReject x, CReject y => x =? y
+  | _, _ => false
+  end.
+Definition minput := (N * list N * list N)%type.
+Definition manager_fn (i : minput) : list call := let '(buffer, revs, apps) := i in manager_calls buffer revs apps.
+Definition mcase := (N * minput * list call)%type.
+Definition check_manager (cs : list mcase) := fmismatches manager_fn (list_eqb call_eqb) cs.
